@@ -1,0 +1,16 @@
+//go:build verif
+
+// Verification hook (add-only, compiled only with -tags verif): re-exports the
+// unexported rule converter so that /verif's correspondence harness can drive
+// it with a small chunk size.
+package policysets
+
+import (
+	"github.com/projectcalico/calico/felix/dataplane/windows/hns"
+	"github.com/projectcalico/calico/felix/proto"
+)
+
+// VerifProtoRuleToHnsRules calls protoRuleToHnsRules.
+func (s *PolicySets) VerifProtoRuleToHnsRules(policyId string, r *proto.Rule, isInbound bool, ipPortsPerRule int) ([]*hns.ACLPolicy, error) {
+	return s.protoRuleToHnsRules(policyId, r, isInbound, ipPortsPerRule)
+}
